@@ -50,9 +50,9 @@ class Account:
             return self.withdraw_now(amount)
 
         if how == "task-async":
-            child = aio.ensure_future(self.withdraw(amount))
+            child = spawn(self.withdraw(amount))
         elif how == "task-sync":
-            child = aio.ensure_future(call_sync())
+            child = spawn(call_sync())
         else:
             child = aio.ensure_future(aio.to_thread(self.withdraw_now, amount))
         (outcome,) = await aio.gather(child, return_exceptions=True)
@@ -61,8 +61,15 @@ class Account:
 
     def settle_sync(self, amount: int, loop) -> str:
         """A synchronous method in flight (called from a coroutine) creates the task; the task runs after it returned."""
-        self.pending = loop.create_task(self.withdraw(amount))
+        self.pending = loop.create_task(self.withdraw(amount), name="job")
         return "scheduled"
+
+
+def spawn(coro):
+    """A new task which carries the very name of the task that spawns it (applications name their tasks after the job they do)."""
+    import asyncio as aio  # pylint: disable=import-outside-toplevel,reimported
+
+    return aio.get_running_loop().create_task(coro, name=aio.current_task().get_name())
 
 
 def positive(x: int) -> bool:
@@ -74,7 +81,7 @@ async def positive_after_fanout(x: int) -> bool:
     import asyncio as aio  # pylint: disable=import-outside-toplevel,reimported
 
     if x == 1000:
-        (outcome,) = await aio.gather(aio.ensure_future(checked(-1)), return_exceptions=True)
+        (outcome,) = await aio.gather(spawn(checked(-1)), return_exceptions=True)
         FANOUT.append(verdict_of(outcome))
     return True
 
@@ -100,8 +107,9 @@ async def main() -> dict:
     import asyncio as aio  # pylint: disable=import-outside-toplevel,reimported
 
     verdicts = {}
+    aio.current_task().set_name("job")
     account = Account()
-    (outcome,) = await aio.gather(aio.ensure_future(account.withdraw(100)), return_exceptions=True)
+    (outcome,) = await aio.gather(spawn(account.withdraw(100)), return_exceptions=True)
     verdicts["method:alone"] = verdict_of(outcome)
     for how in ("task-async", "task-sync", "thread-sync"):
         verdicts["method:parent-in-flight:" + how] = await Account().settle(100, how)
@@ -109,7 +117,7 @@ async def main() -> dict:
     account.settle_sync(100, aio.get_running_loop())
     (outcome,) = await aio.gather(account.pending, return_exceptions=True)
     verdicts["method:task-created-by-sync-method"] = verdict_of(outcome)
-    (outcome,) = await aio.gather(aio.ensure_future(checked(-1)), return_exceptions=True)
+    (outcome,) = await aio.gather(spawn(checked(-1)), return_exceptions=True)
     verdicts["function:alone"] = verdict_of(outcome)
     await checked(1000)
     verdicts["function:parent-condition-in-flight"] = FANOUT[0] if FANOUT else "not-run"
